@@ -23,6 +23,16 @@ type guardTr struct {
 	depth  int
 	// boolean result functions return "true"/"false"; functions whose last result is `error` return "ok"/"err"
 	boolFn bool
+	// second generation (guards2.go): external calls as actions, status results, local definitions, error sentinels
+	v2     bool
+	cfg    *g2cfg
+	defs   map[string]string // single-assignment locals -> their defining expression (normalised)
+	nasg   map[string]int    // number of assignments per local identifier
+	errCmp map[string][]string // per error variable: the things it is compared with ("nil", "io.EOF", …)
+	ver    map[string]int      // tracked integer targets: number of top-level re-assignments so far (later atoms get primes)
+	bools  map[string]bool     // identifiers used as bare conditions
+	blk    int                 // nesting depth of the block being rendered
+	ncall  map[string]int      // per callee: call sites named so far (the k-th is `<callee>@k` for k > 1)
 }
 
 // atom normalises a selector chain: the receiver prefix (c., mr.c., mw.c., mr., mw.) is dropped.
@@ -42,19 +52,30 @@ func (t *guardTr) atom(e ast.Expr) (string, bool) {
 		break
 	}
 	// drop leading receiver identifiers and the `c` hop
+	dropped := false
 	for len(parts) > 1 && (t.recv[parts[0]] || parts[0] == "c") {
 		parts = parts[1:]
+		dropped = true
 	}
 	if r, ok := t.rename[parts[0]]; ok {
 		parts[0] = r
 	}
-	return strings.Join(parts, "."), true
+	if t.v2 && !dropped {
+		if d, ok := t.defs[parts[0]]; ok {
+			parts[0] = d
+		}
+	}
+	name := strings.Join(parts, ".")
+	if t.v2 && t.ver[name] > 0 {
+		name += strings.Repeat("'", t.ver[name])
+	}
+	return name, true
 }
 
 func (t *guardTr) isLocalCall(c *ast.CallExpr) (string, bool) {
 	switch f := c.Fun.(type) {
 	case *ast.Ident:
-		if strings.HasPrefix(f.Name, "verif") {
+		if f.Name == "verifEvent" || f.Name == "verifFrameEvent" {
 			return "", false // hooks of the verification harness: no effect on the connection
 		}
 		if _, ok := t.p.funcs[f.Name]; ok {
@@ -109,6 +130,9 @@ func (t *guardTr) cond(e ast.Expr) string {
 			if len(e.Args) == 0 {
 				return ".v " + leanStr(name+"()")
 			}
+			if t.v2 {
+				return ".v " + leanStr(t.normExpr(e))
+			}
 			return ".call " + leanStr(name)
 		}
 	case *ast.BinaryExpr:
@@ -127,11 +151,11 @@ func (t *guardTr) cond(e ast.Expr) string {
 				}
 				return a
 			}
-			if _, ok := t.ct.eval(x, 0); ok {
+			if _, ok := t.evalConst(x); ok {
 				x, y = y, x
 				op = map[token.Token]token.Token{token.GEQ: token.LEQ, token.LEQ: token.GEQ, token.GTR: token.LSS, token.LSS: token.GTR, token.EQL: token.EQL, token.NEQ: token.NEQ}[op]
 			}
-			if v, ok := t.ct.eval(y, 0); ok {
+			if v, ok := t.evalConst(y); ok {
 				if a, ok := t.atom(x); ok {
 					name := map[token.Token]string{token.GEQ: "ge", token.LEQ: "le", token.GTR: "gt", token.LSS: "lt", token.EQL: "eq", token.NEQ: "ne"}[op]
 					return fmt.Sprintf(".%s %s %s", name, leanStr(a), leanInt(v))
@@ -193,6 +217,13 @@ func isErrCtor(e ast.Expr) bool {
 }
 
 func (t *guardTr) normExpr(e ast.Expr) string {
+	if t.v2 {
+		if _, isId := e.(*ast.Ident); !isId {
+			if v, ok := t.evalConst(e); ok {
+				return fmt.Sprint(v)
+			}
+		}
+	}
 	switch x := e.(type) {
 	case *ast.ParenExpr:
 		return "(" + t.normExpr(x.X) + ")"
@@ -210,15 +241,21 @@ func (t *guardTr) normExpr(e ast.Expr) string {
 			args = append(args, t.normExpr(a))
 		}
 		return t.normExpr(x.Fun) + "(" + strings.Join(args, ",") + ")"
+	case *ast.IndexExpr:
+		if t.v2 {
+			return t.normExpr(x.X) + "[" + t.normExpr(x.Index) + "]"
+		}
 	}
 	return strings.ReplaceAll(normSrc(t.p.str(e)), " ", "")
 }
 
 func (t *guardTr) block(list []ast.Stmt) string {
 	var out []string
+	t.blk++
 	for _, s := range list {
 		out = append(out, t.stmt(s)...)
 	}
+	t.blk--
 	return "[" + strings.Join(out, ", ") + "]"
 }
 
@@ -234,7 +271,14 @@ var guardActions = map[string]bool{"writeError": true, "writeMu.lock": true, "re
 
 // helperDecl: the declaration of a package function / method the call refers to, when it is a helper to render in place.
 func (t *guardTr) helperDecl(c *ast.CallExpr, name string) *ast.FuncDecl {
-	if guardActions[name] || t.depth >= 3 {
+	if t.depth >= 3 {
+		return nil
+	}
+	if t.v2 {
+		if t.cfg != nil && inList(t.cfg.local, name) {
+			return nil
+		}
+	} else if guardActions[name] {
 		return nil
 	}
 	var sel string
@@ -246,7 +290,11 @@ func (t *guardTr) helperDecl(c *ast.CallExpr, name string) *ast.FuncDecl {
 	default:
 		return nil
 	}
-	if guardActions[sel] {
+	if t.v2 {
+		if t.cfg != nil && inList(t.cfg.local, sel) {
+			return nil
+		}
+	} else if guardActions[sel] {
 		return nil
 	}
 	var cands []*ast.FuncDecl
@@ -265,6 +313,10 @@ func (t *guardTr) helperDecl(c *ast.CallExpr, name string) *ast.FuncDecl {
 // receiver for the connection.
 func (t *guardTr) inlineHelper(fd *ast.FuncDecl, c *ast.CallExpr) string {
 	t2 := &guardTr{p: t.p, ct: t.ct, recv: map[string]bool{}, fd: fd, rename: map[string]string{}, depth: t.depth + 1}
+	if t.v2 {
+		t2.v2, t2.cfg = true, t.cfg
+		t2.prepass(fd)
+	}
 	if fd.Recv != nil && len(fd.Recv.List) == 1 && len(fd.Recv.List[0].Names) == 1 {
 		t2.recv[fd.Recv.List[0].Names[0].Name] = true
 	}
@@ -295,6 +347,11 @@ func (t *guardTr) callActs(e ast.Expr) []string {
 			}
 			return []string{".act " + leanStr(name)}
 		}
+		if t.v2 {
+			if a, ok := t.extAct(c, ""); ok {
+				return []string{a}
+			}
+		}
 	}
 	return nil
 }
@@ -311,6 +368,11 @@ func (t *guardTr) stmt(s ast.Stmt) []string {
 		}
 		if len(s.Results) == 0 {
 			return []string{".ret \"named\""}
+		}
+		if t.v2 {
+			if r, ok := t.returnV2(s); ok {
+				return r
+			}
 		}
 		last := s.Results[len(s.Results)-1]
 		var pre []string
@@ -332,6 +394,9 @@ func (t *guardTr) stmt(s ast.Stmt) []string {
 					return []string{strings.TrimSuffix(strings.TrimPrefix(body, "["), "]")}
 				}
 			}
+		}
+		if lc, ok := last.(*ast.CallExpr); ok && len(pre) > 0 && t.v2 {
+			return append(pre, fmt.Sprintf(".ifElse (.v %s) [.ret \"err\"] [.ret \"ok\"]", leanStr(t.callSite(lc)+":err!=nil")))
 		}
 		if _, ok := last.(*ast.CallExpr); ok && len(pre) > 0 {
 			// `return c.f(...)`: the callee decides — an error exactly when the call failed
@@ -391,6 +456,11 @@ func (t *guardTr) stmt(s ast.Stmt) []string {
 			}
 			return []string{strings.TrimSuffix(strings.TrimPrefix(res, "["), "]")}
 		}
+		if t.v2 {
+			if r, ok := t.stringSwitch(s); ok {
+				return r
+			}
+		}
 		tag, ok := t.atom(s.Tag)
 		if !ok {
 			return unk
@@ -435,10 +505,27 @@ func (t *guardTr) stmt(s ast.Stmt) []string {
 		}
 		return []string{".opaque \"loop\""}
 	case *ast.RangeStmt:
+		if t.v2 {
+			// one unrolling: if there is a further element the body runs for it, and falling off its end is the next iteration
+			var out []string
+			for _, x := range s.Body.List {
+				out = append(out, t.stmt(x)...)
+			}
+			out = append(out, ".opaque \"next iteration\"")
+			return []string{fmt.Sprintf(".ifThen (.v %s) [%s]", leanStr("more("+t.normExpr(s.X)+")"), strings.Join(out, ", "))}
+		}
 		return []string{".opaque \"loop\""}
 	case *ast.SelectStmt:
 		return []string{".opaque \"select\""}
 	case *ast.DeferStmt:
+		if t.v2 {
+			if a, ok := t.extAct(s.Call, "defer "); ok {
+				return []string{a}
+			}
+			if name, ok := t.isLocalCall(s.Call); ok {
+				return []string{".act " + leanStr("defer "+name)}
+			}
+		}
 		return []string{".skip"}
 	case *ast.GoStmt:
 		return []string{".act \"go\""}
@@ -448,6 +535,9 @@ func (t *guardTr) stmt(s ast.Stmt) []string {
 		}
 		return []string{".skip"}
 	case *ast.AssignStmt:
+		if t.v2 {
+			return t.assignV2(s)
+		}
 		var out []string
 		for _, r := range s.Rhs {
 			acts := t.callActs(r)
